@@ -42,6 +42,7 @@ import (
 	"github.com/dappledger/AnnChain/gemmill/modules/go-log"
 	"github.com/dappledger/AnnChain/gemmill/modules/go-merkle"
 	gtypes "github.com/dappledger/AnnChain/gemmill/types"
+	"github.com/dappledger/AnnChain/gemmill/verifhook"
 )
 
 const (
@@ -407,6 +408,7 @@ func (app *EVMApp) OnCommit(height, round int64, block *gtypes.Block) (interface
 	}
 
 	app.receipts = nil
+	verifhook.Gate("evm.OnCommit.beforeUpdateToState")
 	app.pool.updateToState()
 	log.Info("application save to db", zap.String("appHash", fmt.Sprintf("%X", appHash.Bytes())), zap.String("receiptHash", fmt.Sprintf("%X", rHash)))
 
